@@ -407,8 +407,8 @@ def run_node(schedule):
                      end_time=Instant(END_S * T))
     after_construct(schedule, handles, sim)
     evs = []
-    evs.append(_ev(tk(4), "long", g, tag="long", steps=11))  # resumes at 0.75, 1.25, ..., 5.75
-    evs.append(_ev(tk(4), "long", b, tag="long", steps=11))
+    evs.append(_ev(tk(4), "long", g, tag="long", steps=LONG_STEPS))  # resumes at 0.75, 1.25, ..., 5.75
+    evs.append(_ev(tk(4), "long", b, tag="long", steps=LONG_STEPS))
     for k in PROBE_K:
         t = tk(16 * k + 8)
         evs.append(_ev(t, "probe", p, tag=f"p{k}"))
@@ -523,6 +523,13 @@ def node_oracle(schedule, c):
                                 f"work {tag} of {x} spans [{sec(t0)}, {sec(t1)}] s, clear of every down window {ws}, "
                                 f"but ran as {by_tag.get(tag)} instead of {ents}{note}"))
                     break
+            if x == "G":
+                bad = long_process_check(ws, by_tag.get("long", []))
+                if bad:
+                    out.append((("in-flight-process-resumption", kind),
+                                f"the long process of G (started at 0.25 s, {LONG_STEPS} steps of 0.5 s) under down "
+                                f"windows {ws}: {bad}; steps ran at "
+                                f"{[sec(e[1]) for e in by_tag.get('long', []) if e[0] == 'r']}{note}"))
         else:
             # queue-fronted target: work queued behind an interrupted item legitimately shifts, and the fate of work
             # that is queued or in service when a window opens is not stated, so (i) items whose fault-free lifetime
@@ -547,6 +554,55 @@ def node_oracle(schedule, c):
                                     f"and was never handled{note}"))
                         break
     return out
+
+
+LONG_STEPS = 11
+LONG_DELAY = 8 * TICK  # 0.5 s
+
+
+def down_periods(ws):
+    """maximal down periods [S, E) of a set of windows (touching windows merge; E None = never restarts)."""
+    inf = float("inf")
+    spans = sorted((s * T, inf if e is None else e * T) for (s, e) in ws)
+    merged = []
+    for s, e in spans:
+        if merged and s <= merged[-1][1]:
+            merged[-1][1] = max(merged[-1][1], e)
+        else:
+            merged.append([s, e])
+    return [(s, None if e == inf else e) for s, e in merged]
+
+
+def long_process_check(ws, entries):
+    """"no in-flight process advances ... processing resumes from the restart time": every step of the multi-yield
+    process happens exactly once, one delay after the previous step, or - when that instant falls in a down
+    period - exactly at the end of that period.  A step due exactly ON the start of a period may run there or be
+    frozen (tie with the fault event).  Returns a description of the first deviation, or None."""
+    periods = down_periods(ws)
+    if not entries or entries[0][0] != "h":
+        return None  # never started (judged by the other clauses)
+    steps = [t for (k, t, _tag) in entries if k == "r"]
+    prev = entries[0][1]
+    for i in range(LONG_STEPS):
+        due = prev + LONG_DELAY
+        allowed = [due]
+        may_never = False
+        for (S, E) in periods:
+            if S <= due and (E is None or due < E):
+                allowed = ([S] if due == S else []) + ([E] if E is not None else [])
+                may_never = E is None
+        if i >= len(steps):
+            if allowed and not may_never:
+                return (f"step {i + 1} never ran (expected at {' or '.join(str(sec(a)) for a in allowed)} s after the "
+                        f"step at {sec(prev)} s)")
+            return None  # frozen for good by a crash without restart
+        if steps[i] not in allowed:
+            exp = " or ".join(str(sec(a)) for a in allowed) or "never (entity stays down)"
+            return f"step {i + 1} ran at {sec(steps[i])} s after the step at {sec(prev)} s, expected at {exp} s"
+        prev = steps[i]
+    if len(steps) > LONG_STEPS:
+        return f"{len(steps)} steps ran, the process has only {LONG_STEPS}"
+    return None
 
 
 def _by_tag(log):
@@ -943,6 +999,17 @@ def res_oracle(schedule, c, workload):
                 add("not-reduced-while-window-active", kind,
                     f"{rn}.capacity = {capacity} (configured {CAP}) at {sec(t)} s although windows {active} are active "
                     f"(all: {ws})")
+            if active and capacity < CAP:
+                # documented by ReduceCapacity: "every open window multiplies the configured capacity by its factor"
+                want = CAP
+                for sp in specs:
+                    if inside(t, win(sp)):
+                        want = want * sp[2]
+                if capacity != want:
+                    add("wrong-reduced-capacity", kind,
+                        f"{rn}.capacity = {capacity} at {sec(t)} s; the open windows "
+                        f"{[(sp[2], win(sp)) for sp in specs if inside(t, win(sp))]} (factor, window) multiply the "
+                        f"configured {CAP} down to {want}")
             if not active and capacity != CAP:
                 add("reduced-outside-window", kind,
                     f"{rn}.capacity = {capacity} (configured {CAP}) at {sec(t)} s although no window of {ws} is active")
@@ -1140,7 +1207,7 @@ def main(tier, seed, only=None):
               assumptions=["harness entities log inside their own handlers / generators (public contract)",
                            "random.random() is owned (0.000001 or 0.999999 on every call) in the network world; under partial loss only the link state is judged, not which probes are lost",
                            "activity exactly ON a window endpoint is judged neither inside nor outside",
-                           "how the magnitudes of overlapping latency / partial-loss / capacity faults combine is not judged"])
+                           "how the magnitudes of overlapping latency / partial-loss faults combine is not judged (capacity: the documented product of the open windows' factors is)"])
     if tier == "quick":
         plan = [("node", 2, {1: ALL_MODES, 2: (None, "post")}),
                 ("network", 2, {1: ALL_MODES, 2: (None, "post")}),
